@@ -15,12 +15,37 @@ class PathV:
         return f"PathV({self.s!r})"
 
 
+class FileV:
+    """an open file of the virtual tree"""
+
+    def __init__(self, path: str, mode: str, encoding, errors):
+        self.path, self.mode, self.encoding, self.errors = path, mode, encoding, errors
+
+
+TOTAL_ENCODINGS = {"latin-1", "latin1", "iso-8859-1", "iso8859-1", "l1", "cp437", "cp850", "cp1252-replace"}
+
+
 class VFS:
     def __init__(self, tree: dict, cwd: str):
         """tree: absolute directory -> (subdirectory names, file names)"""
         self.tree = tree
         self.cwd = cwd
         self.texts: dict = {}
+        self.undecodable: set = set()      # absolute paths whose bytes are not valid UTF-8
+        self.read_log: list = []
+
+    def read(self, f: "FileV", node=None):
+        a = self.abs(f.path)
+        if not self.is_file(a):
+            raise PyRaise("FileNotFoundError", node)
+        if "b" in f.mode:
+            return b"bytes:" + a.encode()
+        self.read_log.append(a)
+        enc = (f.encoding or "utf-8").lower().replace("_", "-")
+        strict = f.errors in (None, "strict")
+        if a in self.undecodable and strict and enc not in TOTAL_ENCODINGS:
+            raise PyRaise("UnicodeDecodeError", node)
+        return self.texts.get(a, "text of " + a)
 
     def abs(self, s: str) -> str:
         return posixpath.normpath(s if s.startswith("/") else posixpath.join(self.cwd, s))
@@ -54,7 +79,7 @@ def sval(x):
 
 def fs_hook(vfs: VFS):
     """hook fragment: pathlib.Path, os.path.*, os.walk on the virtual tree"""
-    PATH_METHODS = {"absolute", "resolve", "relative_to", "joinpath", "is_file", "is_dir", "exists", "is_absolute", "read_text", "read_bytes",
+    PATH_METHODS = {"open", "absolute", "resolve", "relative_to", "joinpath", "is_file", "is_dir", "exists", "is_absolute", "read_text", "read_bytes",
                     "as_posix", "__str__", "__fspath__", "with_suffix", "expanduser"}
     PATH_ATTRS = {"name", "suffix", "parent", "parents", "parts", "stem"}
 
@@ -107,10 +132,9 @@ def fs_hook(vfs: VFS):
         if name == "exists":
             return vfs.is_file(s) or vfs.is_dir(s)
         if name in ("read_text", "read_bytes"):
-            a = vfs.abs(s)
-            if a in vfs.texts:
-                return vfs.texts[a]
-            raise PyRaise("FileNotFoundError", node)
+            return vfs.read(FileV(s, "rb" if name == "read_bytes" else "r", kwargs.get("encoding", args[0] if args else None), kwargs.get("errors")), node)
+        if name == "open":
+            return FileV(s, args[0] if args else kwargs.get("mode", "r"), kwargs.get("encoding"), kwargs.get("errors"))
         if name in ("as_posix", "__str__", "__fspath__"):
             return s
         if name == "with_suffix":
@@ -118,6 +142,22 @@ def fs_hook(vfs: VFS):
         raise Unknown(f"Path.{name}")
 
     def hook(it, kind, f, args, kwargs, node, cur):
+        if kind == "getattr" and isinstance(f, FileV):
+            if args in ("read", "readlines", "close", "__enter__", "__exit__", "readline"):
+                return ("filem", f, args)
+            raise Unknown(f"file.{args}")
+        if kind == "call" and isinstance(f, tuple) and f and f[0] == "filem":
+            if f[2] == "read":
+                return vfs.read(f[1], node)
+            if f[2] == "readlines":
+                r = vfs.read(f[1], node)
+                return r.splitlines(True)
+            if f[2] == "__enter__":
+                return f[1]
+            return None
+        if kind == "call" and f == ("builtin", "open"):
+            mode = args[1] if len(args) > 1 else kwargs.get("mode", "r")
+            return FileV(sval(args[0]), mode, kwargs.get("encoding"), kwargs.get("errors"))
         if kind == "getattr" and isinstance(f, PathV):
             attr = args
             if attr in PATH_ATTRS:
